@@ -386,6 +386,8 @@ func (w *World) synthesise(fs *FuncSpec) error {
 	gen := func(lt *LayoutType, suffix, props string, last bool) error {
 		if lt.Header == "none" {
 			props += ",C18" // the CMPP status-report body is part of the delivery-receipt property
+		} else if dir[0] == "enc" {
+			props += ",C10" // "the sequence number / command set on the PDU is what IEncode puts at the header offsets" is a C10 clause too
 		}
 		lenMember, _ := lt.headerMembers(r)
 		_ = lenMember
